@@ -19,7 +19,7 @@ BCAP = 5
 
 
 def write_replay(prop, unit, res, body):
-    d = os.path.join(VERIF, '.work', 'replay')
+    d = os.path.join(driver.WORK, 'replay')
     os.makedirs(d, exist_ok=True)
     path = os.path.join(d, '%s_%s.txt' % (prop, unit['name']))
     with open(path, 'w') as f:
